@@ -53,6 +53,10 @@ CHECKS = {
    technique="deterministic-schedule exploration with exact deadlock detection (no ready task, nothing in flight), step/lookup/request budgets for livelock, and Err/panic detection on valid calls",
    text="Concurrent batches and sequential histories without faults: the executor reports deadlock exactly, budgets (orders of magnitude above terminating runs) flag livelock suspects, and any Err/panic from a valid call is a spurious failure.",
    note=SEQ_NOTE + " Liveness is only refuted. Known findings tolerated by signature: eviction while tasks run; discard racing other calls."),
+ "C17": dict(cat="fault_enumeration", design="DESIGN.md 6/C17",
+   technique="fault-injection enumeration: every single-request failure position of generated histories (both failure flavours) plus generated multi-fault plans, then heal + flush retry + independent checker + reopen vs. reference model with old-or-new sets",
+   text="For each generated history the fault-free run counts the requests to the image file; the history is then re-executed once per request ordinal failing exactly that request (enumerated up to 150), and under generated multi-fault plans. Oracle: no panic/hang; Err only from calls whose own request failed; after healing flush_meta succeeds within 8 attempts; acknowledged writes read back on the live device and after reopen, blocks of failed writes hold old or new value; the independent checker finds no corruption or under-count.",
+   note=SEQ_NOTE + " A failed write is modelled as not applied or fully applied. One known finding tolerated by signature (punch and its zero-write fallback both fail)."),
  "C18": dict(cat="exploration", design="DESIGN.md 6/C18",
    technique="invariant sampling at quiescent points of generated concurrent and sequential histories: need_flush_meta()==false => copied file passes the independent checker and reopens to the same content",
    text="At every quiescent point need_flush_meta() is sampled; when false the file is copied, judged by the independent strict checker, reopened and swept against the live content.",
